@@ -314,6 +314,11 @@ func (g *G) expr(ty string, d int) *Node {
 		return g.boolExpr(d)
 	case "[int]":
 		return g.arrIntExpr(d)
+	case "[str]":
+		if g.p.Builtins && g.pct("splitexpr", 40) {
+			// split(str, delimiter): documented in LANGUAGE_SPECIFICATION 10.1 (a non-empty literal delimiter)
+			return Call("split", g.expr("str", d-1), Str(g.pick("splitd", []string{",", " ", "l", "ab", "-"})))
+		}
 	}
 	return g.leaf(ty)
 }
@@ -521,6 +526,13 @@ func (g *G) calm() bool {
 func (g *G) pick2(label string, xs ...*Node) *Node { return xs[g.n(label, len(xs))] }
 
 func (g *G) floatExpr(d int) *Node {
+	if g.p.Builtins && !g.p.VMOnly && g.pct("parsefloat", 8) {
+		// parseFloat(str): documented in LANGUAGE_SPECIFICATION 10.2
+		if g.calm() {
+			return Call("parseFloat", Str(g.pick("pfc", []string{"3.14", "-2.5", "10", " 0.5 ", "1e3", "0"})))
+		}
+		return Call("parseFloat", g.pick2("pf", Str("3.14"), Str("x1"), Str(""), Str("1.5.2"), Call("toString", g.expr("int", d-1))))
+	}
 	op := g.pick("fop", []string{"+", "-", "*", "/", "+", "*"})
 	if g.p.TotalOnly && op == "/" {
 		op = "*"
